@@ -738,6 +738,23 @@ func init() {
 		Variant{Name: "mutant: local shard-change callback no longer replays", Property: "C03", File: "proxy/shard_manager.go",
 			Old: "\t\t\tsm.notifyReceiversOfNewShard(shard)\n\t\t}\n\t\tif sm.intraMgr != nil {\n\t\t\tsm.intraMgr.Notify()\n\t\t}\n\t})\n\n", New: "\t\t\t\n\t\t}\n\t\tif sm.intraMgr != nil {\n\t\t\tsm.intraMgr.Notify()\n\t\t}\n\t})\n\n", Expect: "O3.11"},
 	)
+	// ---- behaviour-preserving forms of the code the sweep's rules read
+	addVariants(
+		Variant{Name: "benign: AggregateUpTo tests emptiness and the watermark in one condition", Property: "C05", File: pst, Benign: true,
+			Old: "\tif b.size == 0 {\n\t\treturn result, 0\n\t}\n\tif watermark < b.startProxyID {\n\t\treturn result, 0\n\t}\n", New: "\tif b.size == 0 || watermark < b.startProxyID {\n\t\treturn result, 0\n\t}\n"},
+		Variant{Name: "benign: clamp test evaluated into a local first", Property: "C03", File: pst, Benign: true,
+			Old: "\t\t\t\t\tif lastExclusiveHighOriginal > 0 && min > lastExclusiveHighOriginal {\n", New: "\t\t\t\t\tif exceeds := min > lastExclusiveHighOriginal; lastExclusiveHighOriginal > 0 && exceeds {\n"},
+		Variant{Name: "benign: same edit seen by C01", Property: "C01", File: pst, Benign: true,
+			Old: "\t\t\t\t\tif lastExclusiveHighOriginal > 0 && min > lastExclusiveHighOriginal {\n", New: "\t\t\t\t\tif exceeds := min > lastExclusiveHighOriginal; lastExclusiveHighOriginal > 0 && exceeds {\n"},
+		Variant{Name: "benign: SetLocalAckChan releases its lock explicitly instead of with a defer", Property: "C08", File: shm, Benign: true,
+			Old: "\tsm.localAckChannelsMu.Lock()\n\tdefer sm.localAckChannelsMu.Unlock()\n\tsm.localAckChannels[shardID] = ackChan\n", New: "\tsm.localAckChannelsMu.Lock()\n\tsm.localAckChannels[shardID] = ackChan\n\tsm.localAckChannelsMu.Unlock()\n"},
+		Variant{Name: "benign: receive worker defers Done and the latch separately", Property: "C04", File: pst, Benign: true,
+			Old: "\tgo func() {\n\t\tdefer func() {\n\t\t\tshutdownChan.Shutdown()\n\t\t\twg.Done()\n\t\t}()\n\t\t_ = r.recvReplicationMessages(sourceStreamClient, shutdownChan)\n", New: "\tgo func() {\n\t\tdefer wg.Done()\n\t\tdefer shutdownChan.Shutdown()\n\t\t_ = r.recvReplicationMessages(sourceStreamClient, shutdownChan)\n"},
+		Variant{Name: "benign: last task read through a length local", Property: "C02", File: pst, Benign: true,
+			Old: "\t\t\t\tproxyExclusiveHigh = m.Messages.ReplicationTasks[len(m.Messages.ReplicationTasks)-1].SourceTaskId + 1\n", New: "\t\t\t\tnTasks := len(m.Messages.ReplicationTasks)\n\t\t\t\tproxyExclusiveHigh = m.Messages.ReplicationTasks[nTasks-1].SourceTaskId + 1\n"},
+		Variant{Name: "benign: forward decision with the manager test first", Property: "C09", File: shm, Benign: true,
+			Old: "\tif sm.memberlistConfig != nil {\n\t\tif owner, ok := sm.getShardOwner(targetShard); ok && owner != sm.GetNodeName() {\n\t\t\tif addr, found := sm.GetProxyAddress(owner); found {\n\t\t\t\tif mgr := sm.GetIntraProxyManager(); mgr != nil {\n", New: "\tif mgr := sm.GetIntraProxyManager(); mgr != nil && sm.memberlistConfig != nil {\n\t\tif owner, ok := sm.getShardOwner(targetShard); ok && owner != sm.GetNodeName() {\n\t\t\tif addr, found := sm.GetProxyAddress(owner); found {\n\t\t\t\t{\n"},
+	)
 	// ---- swallowed errors and retained state (general rules)
 	addVariants(
 		Variant{Name: "blob repair error logged and dropped", Property: "C17", File: refl,
